@@ -1,15 +1,108 @@
 (* Properties/C05.v — OSM JSON output is osmjson-shaped and round-trips up to tag order.
-   ONLY statements closed by [exact] of lemmas of C05/Proofs*.v + Print Assumptions.
-   (first version: the refutation witnesses of the unchanged tree; the positive theorems are
-   added as they are proved) *)
-From Coq Require Import ZArith List String Ascii Bool.
-From Verif Require Import C05.Json C05.Schema C05.Model C05.Fmt C05.Osm C05.Spec C05.ProofsLegacy.
+
+   ONLY statements, each closed by [exact] of a lemma of C05/Proofs*.v / Codec.v, Print
+   Assumptions, and non-vacuity Examples.  The struct schemas (t_Node, t_Way, ... of
+   VerifGen.GenJsonTags) are regenerated from /repo's source on every run; the hand-modelled
+   methods are tied by C05/GenOk.v and by correspondence (harness/cmd/c05).
+
+   [mo] is the order in which the codec in use emits the entries of a Go map (encoding/json:
+   sorted; others: any permutation), so every theorem holds for every codec configuration.
+   Equivalence (Spec.v): osm_equiv a b := canon_osm a = canon_osm b, where canon sorts tags by
+   key and reduces way nodes to their ids (version/changeset/lat/lon of a way node have no
+   place in osmjson). *)
+From Coq Require Import ZArith List String Ascii Bool Permutation.
+From Verif Require Import C05.Json C05.Schema C05.Model C05.Fmt C05.Osm C05.Spec C05.SortTags
+     C05.Fields C05.ProofsGeneric C05.ProofsOsm C05.ProofsShape C05.ProofsLegacy C05.Codec.
 From VerifGen Require Import GenJsonTags.
 Import ListNotations.
 Open Scope string_scope.
 Open Scope Z_scope.
 
-(* absent_stays_empty was FALSE of the code as found (/repo 8c4814b, osm.go:309): *)
+(* 1. json_roundtrip: unmarshalling the output yields the same elements up to tag order and up
+      to the way-node annotations; in particular the library's own output is decodable
+      (own_output_decodable), for every well-formed OSM value with any combination of
+      optional fields, every element kind, with or without Bounds. *)
+Theorem C05_json_roundtrip : forall mo, (forall l, Permutation (mo l) l) ->
+  forall o, wf_osm o = true ->
+  exists o', osm_unmarshal (osm_marshal mo o) = Ok o' /\ osm_equiv o' o.
+Proof. exact osm_roundtrip. Qed.
+Print Assumptions C05_json_roundtrip.
+
+Theorem C05_own_output_decodable : forall mo, (forall l, Permutation (mo l) l) ->
+  forall o, wf_osm o = true -> exists o', osm_unmarshal (osm_marshal mo o) = Ok o'.
+Proof. exact own_output_decodable. Qed.
+Print Assumptions C05_own_output_decodable.
+
+(* the same for a single value of any type of the schema (elements marshalled on their own,
+   members, updates, discussions, ...): schema-generic, by induction on the type descriptor *)
+Theorem C05_value_roundtrip : forall mo, (forall l, Permutation (mo l) l) ->
+  forall t, rt_ok t = true -> forall v, wf t v = true ->
+  exists v', dec t (enc mo t v) = Ok v' /\ equiv t v' v.
+Proof. exact enc_dec. Qed.
+Print Assumptions C05_value_roundtrip.
+
+Theorem C05_generated_schemas_ok :
+  rt_ok t_Node && rt_ok t_Way && rt_ok t_Relation && rt_ok t_Changeset && rt_ok t_Note
+  && rt_ok t_User && rt_ok t_Bounds = true.
+Proof. exact schemas_rt_ok. Qed.
+
+(* "up to tag order" made precise: tag lists with distinct keys that are permutations of each
+   other have the same canonical form *)
+Theorem C05_tag_order_irrelevant : forall (l l' : list (string * string)),
+  Permutation l l' -> NoDup (map kc l) -> sort_tags l = sort_tags l'.
+Proof. exact sort_tags_of_perm. Qed.
+Print Assumptions C05_tag_order_irrelevant.
+
+(* 2. version_number_or_string + absent_stays_empty: for EVERY document object that decodes
+      (any keys, any order, unknown keys present), the header fields are exactly what the
+      document says; absent (or null) fields are the empty string, never placeholder text *)
+Theorem C05_header_of_document : forall kv o, osm_unmarshal (JObj kv) = Ok o ->
+  version_says kv (o_version o)
+  /\ str_field kv "generator" (o_generator o) /\ str_field kv "copyright" (o_copyright o)
+  /\ str_field kv "attribution" (o_attribution o) /\ str_field kv "license" (o_license o).
+Proof. exact header_of_document. Qed.
+Print Assumptions C05_header_of_document.
+
+(* 3. json_shape.  Full statement (kept; proved below in parts):
+        forall mo o, wf_osm o = true -> osmjson_shape (osm_marshal mo o) = true.
+      Proved: "elements" is an array holding exactly Objects() encoded; every element kind and
+      the bounds element carry their osmjson type; tags always encode as an object of strings,
+      way nodes as an array of integer ids, members as an array (never null) — for all values.
+      Missing for the full statement: the lookups of "tags"/"nodes"/"members" inside the
+      generic struct encoding (lemma fields_rt covers them for decoding only).  The composite
+      predicate osmjson_shape is evaluated on every implementation output by the harness. *)
+Theorem C05_json_shape_partial : forall mo,
+  (forall o, exists kv, osm_marshal mo o = JObj kv /\ lookup "elements" kv = Some (JArr (objects mo o)))
+  /\ (forall k v, wf (ktype k) v = true ->
+        find_type (enc mo (ktype k) v) = Ok (kname k) /\ mem_str (kname k) osmjson_types = true)
+  /\ (forall b, wf t_Bounds b = true -> find_type (enc mo t_jsonBoundsElement (bounds_element b)) = Ok "bounds")
+  /\ (forall l, tags_object (enc mo TTags (VList l)) = true)
+  /\ (forall fs l, id_array (enc mo (TWayNodes fs) (VList l)) = true)
+  /\ (forall t l, exists js, enc mo (TMembers t) (VList l) = JArr js).
+Proof.
+  intros mo. split; [exact (elements_is_array mo)|]. split; [exact (element_carries_type mo)|].
+  split; [exact (bounds_carries_type mo)|]. split; [exact (tags_is_object mo)|].
+  split; [exact (waynodes_is_id_array mo)|exact (members_never_null mo)].
+Qed.
+Print Assumptions C05_json_shape_partial.
+
+(* 4. codec_independent: whichever lawful codec writes and whichever reads (laws: every codec
+      reads every codec's output as the same tree; map order is a permutation), the results
+      are equivalent to the input and to each other.  Codecs are Section variables of
+      C05/Codec.v, no axiom. *)
+Theorem C05_codec_independent :
+  forall (bytes : Type) (sem : bytes -> option json) (c s : codec bytes),
+  lawful bytes sem c -> lawful bytes sem s ->
+  forall o, wf_osm o = true ->
+  exists o1 o2,
+    osm_unmarshal_bytes bytes c (osm_marshal_bytes bytes s o) = Ok o1 /\
+    osm_unmarshal_bytes bytes s (osm_marshal_bytes bytes c o) = Ok o2 /\
+    osm_equiv o1 o /\ osm_equiv o2 o /\ osm_equiv o1 o2.
+Proof. exact codec_independent. Qed.
+Print Assumptions C05_codec_independent.
+
+(* 5. the unchanged tree (/repo 8c4814b) violated the property: refutations over the model of
+      the code as found, replayed on the implementation, repaired by /repo f6e3a8f, bbea2b1 *)
 Theorem C05_absent_stays_empty_legacy_refuted :
   exists doc kv o, doc = JObj kv /\ lookup "version" kv = None /\
     osm_unmarshal_legacy doc = Ok o /\ o_version o = "<nil>".
@@ -19,10 +112,34 @@ Proof.
 Qed.
 Print Assumptions C05_absent_stays_empty_legacy_refuted.
 
-(* own_output_decodable / json_shape were FALSE of the code as found (osm.go:187, 288): *)
 Theorem C05_own_output_decodable_legacy_refuted :
   exists o, wf_osm o = true /\
     osmjson_shape (osm_marshal_legacy std o) = false /\
     osm_unmarshal_legacy (osm_marshal_legacy std o) = Err.
 Proof. exists osm_with_bounds. exact own_output_legacy. Qed.
 Print Assumptions C05_own_output_decodable_legacy_refuted.
+
+(* ---- non-vacuity ---- *)
+Definition ex_node : val :=
+  VStruct [VUnit; VInt 1; VFloat 515 1; VFloat (-1278) 4; VStr "u"; VInt 7; VBool true; VInt 2; VInt 9;
+           VTime "2012-09-12T09:30:03Z";
+           VList [mk_tag ("name", "x"); mk_tag ("highway", "y")]; VSome (VTime "2012-09-12T09:30:04.5Z")].
+Definition ex_way : val :=
+  VStruct [VUnit; VInt 2; VStr ""; VInt 0; VBool false; VInt 0; VInt 0; VTime zero_time;
+           VList [VStruct [VInt 1; VInt 3; VInt 4; VFloat 15 1; VFloat 25 1]]; VList []; VNone; VList []; VNone].
+Definition ex_osm : osmv :=
+  mkOsm "" "gen" "" "" "" (Some (VStruct [VFloat 1 0; VFloat 2 0; VFloat 3 0; VFloat 4 0]))
+        [ex_node] [ex_way] [] [] [] [].
+
+Example ex_wf : wf_osm ex_osm = true.
+Proof. vm_compute. reflexivity. Qed.
+Example ex_shape : osmjson_shape (osm_marshal std ex_osm) = true.
+Proof. vm_compute. reflexivity. Qed.
+(* the round trip really reorders tags and erases the way-node annotations *)
+Example ex_roundtrip :
+  exists o', osm_unmarshal (osm_marshal std ex_osm) = Ok o' /\ o' <> ex_osm /\ osm_equivb o' ex_osm = true.
+Proof. eexists. split; [vm_compute; reflexivity|]. split; [discriminate|vm_compute; reflexivity]. Qed.
+Example ex_header :
+  exists o, osm_unmarshal (JObj [("zzz", JNum 1 0); ("version", JNum 6 1); ("elements", JArr [])]) = Ok o
+            /\ o_version o = "0.6" /\ o_generator o = "".
+Proof. eexists. split; [vm_compute; reflexivity|split; reflexivity]. Qed.
